@@ -34,19 +34,48 @@ def _writers(ctx):
     return [(fmt, ctx.model.registered('write', fmt)) for fmt in FORMATS]
 
 
-def _creating_calls(fn, pathparam):
-    """Calls that create/truncate the destination."""
+_MODEL = [None]
+
+
+def _direct_creates(fn):
+    """[(call, kind, mode constant or None, destination expression)] for calls that create/truncate a file."""
     out = []
     for c in calls_in(fn):
         nm = call_name(c) or ''
         if nm == 'open' and c.args:
-            mode = c.args[1] if len(c.args) > 1 else next(
-                (k.value for k in c.keywords if k.arg == 'mode'), None)
-            if isinstance(mode, ast.Constant) and isinstance(mode.value, str) \
-                    and mode.value[:1] in 'wax':
-                out.append(c)
+            mode = c.args[1] if len(c.args) > 1 else next((k.value for k in c.keywords if k.arg == 'mode'), None)
+            if isinstance(mode, ast.Constant) and isinstance(mode.value, str) and mode.value[:1] in 'wax':
+                out.append((c, 'open', mode.value, c.args[0]))
         elif nm.endswith('.writeto') or nm.endswith('.write_to') or nm.endswith('.tofile'):
-            out.append(c)
+            dest = c.args[0] if c.args else next((k.value for k in c.keywords if k.arg in ('file', 'name', 'fileobj')), None)
+            out.append((c, nm.split('.')[-1], None, dest))
+    return out
+
+
+def _creating_calls(fn, pathparam, fi=None):
+    """Calls in the writer that create/truncate the destination — directly, or through a helper of the repository that
+    receives the path (one level: the helper call stands for the creation, with the helper's mode and the actual path
+    argument)."""
+    out = []
+    for c, kind, mode, dest in _direct_creates(fn):
+        c._vp = (kind, mode, dest)
+        out.append(c)
+    m = _MODEL[0]
+    if m is not None and fi is not None:
+        for c in calls_in(fn):
+            cs = m.resolve_call(fi, c)
+            if not cs or cs[0].path.endswith('.pyx'):
+                continue
+            h = cs[0]
+            hp = func_params(h.node)
+            for hc, kind, mode, dest in _direct_creates(h.node):
+                if isinstance(dest, ast.Name) and dest.id in hp:
+                    k = hp.index(dest.id) - (1 if h.cls and not h.is_static else 0)
+                    actual = c.args[k] if 0 <= k < len(c.args) else next(
+                        (kw.value for kw in c.keywords if kw.arg == dest.id), None)
+                    if actual is not None and any(isinstance(a, ast.Name) and a.id == pathparam for a in ast.walk(actual)):
+                        c._vp = (kind, mode, actual)
+                        out.append(c)
     return out
 
 
@@ -149,7 +178,8 @@ def r1(ctx):
         ctx.need(len(params) >= 2, fi.qualname, 'writer has no filename parameter')
         pathparam = params[1]
         cfg = CFG(fn)
-        creates = _creating_calls(fn, pathparam)
+        _MODEL[0] = ctx.model
+        creates = _creating_calls(fn, pathparam, fi)
         ctx.need(creates, fi.qualname, 'no destination-creating call found in writer')
         guards = _guards(fn, pathparam)
         lex = [g for g, api in guards if api == 'lexists']
@@ -170,12 +200,12 @@ def r1(ctx):
                 pre_expanded, rebinds = True, []
         guard_exp = pre_expanded or all(GUARD_EXPANDED.get(id(g), False) for g in lex) if lex else False
         for c in creates:
-            dest = c.args[0] if c.args else next((k.value for k in c.keywords if k.arg in ('file', 'name', 'fileobj')), None)
+            dest = c._vp[2]
             if not (isinstance(dest, ast.Name) and dest.id == pathparam) and not _is_expanduser_of(dest, pathparam):
                 differs.append((c, f'the file is created at `{norm(dest) if dest is not None else "?"}`'))
                 continue
             create_exp = pre_expanded or _is_expanduser_of(dest, pathparam) or \
-                (call_name(c) or '').split('.')[-1] in EXPANDING_CREATORS
+                c._vp[0] in EXPANDING_CREATORS
             if create_exp != guard_exp:
                 differs.append((c, f'`{norm(c.func)}` creates the {"~-expanded" if create_exp else "literal"} path while the '
                                    f'guard tests the {"~-expanded" if guard_exp else "literal"} one'))
@@ -205,7 +235,8 @@ def r2(ctx):
         params = func_params(fn)
         pathparam, regparam = params[1], params[0]
         cfg = CFG(fn)
-        creates = _creating_calls(fn, pathparam)
+        _MODEL[0] = ctx.model
+        creates = _creating_calls(fn, pathparam, fi)
         ctx.need(creates, fi.qualname, 'no destination-creating call found')
         # serialisation calls: repo callees receiving the regions parameter
         ser = []
@@ -247,6 +278,8 @@ def r2(ctx):
                    'handler': lambda s: []}.get(k, lambda s: [s])(st)
             for h in hay:
                 for c in calls_in(h):
+                    if c in creates:
+                        continue          # the creating call itself (possibly a helper wrapping encode/open/write)
                     if ctx.model.resolve_call(fi, c):
                         late.append(c)
                     elif i != first or c not in creates:
@@ -259,13 +292,30 @@ def r2(ctx):
                             if i == first:
                                 continue
                             late.append(c)
+        for c in creates:
+            cs = ctx.model.resolve_call(fi, c)
+            if not cs:
+                continue
+            h = cs[0]
+            hcfg = CFG(h.node)
+            hopen = [x for x, k_, md, d in _direct_creates(h.node)]
+            if not hopen:
+                continue
+            hfirst = _node_of(hcfg, hopen[0])
+            import networkx as nx
+            for i in nx.descendants(hcfg.g, hfirst):
+                if i in (EXIT, RAISE, ENTRY):
+                    continue
+                st = hcfg.stmt[i]
+                for c2 in calls_in(st) if not isinstance(st, (ast.With, ast.If, ast.For, ast.While, ast.Try)) else []:
+                    nm2 = call_name(c2) or ''
+                    if not (nm2.endswith('.write') and all(isinstance(a, ast.Name) for a in c2.args)):
+                        late.append(c2)
         # a text-mode file encodes while it writes: an unencodable character raises after the destination was truncated
         textmode = []
         for c in creates:
-            if (call_name(c) or '') == 'open':
-                mode = c.args[1] if len(c.args) > 1 else next((k.value for k in c.keywords if k.arg == 'mode'), None)
-                if isinstance(mode, ast.Constant) and isinstance(mode.value, str) and 'b' not in mode.value:
-                    textmode.append(c)
+            if c._vp[0] == 'open' and isinstance(c._vp[1], str) and 'b' not in c._vp[1]:
+                textmode.append(c)
         if textmode and not late:
             ctx.bad(fi.qualname, 'encode-after-open',
                     f'{fmt} writer: `{norm(textmode[0])}` opens the destination in text mode, so the serialised text is '
@@ -549,10 +599,25 @@ def r5(ctx):
         fi = m.method(reg, name)
         ctx.need(fi is not None, f'RegionsRegistry.{name}', 'missing')
         fn = fi.node
-        pm = parents(fn)
+        # the method and the helpers of the registry class it calls (one level)
+        scopes = [fn]
+        for c in calls_in(fn):
+            for h in m.resolve_call(fi, c) or ():
+                if h.cls == fi.cls and h.qualname != fi.qualname and h.node not in scopes:
+                    scopes.append(h.node)
+        pm = {}
+        for sc in scopes:
+            pm.update(parents(sc))
         # every registry[...] subscript sits in try/except KeyError -> raise IORegistryError
-        subs = [n for n in ast.walk(fn) if isinstance(n, ast.Subscript)
-                and (dotted(n.value) or '').endswith('registry')]
+        subs = [n for sc in scopes for n in ast.walk(sc) if isinstance(n, ast.Subscript)
+                and (dotted(n.value) or '').endswith('registry') and isinstance(n.ctx, ast.Load)
+                and not any(isinstance(p_, ast.comprehension) for p_ in [pm.get(n)])]
+        # a key taken from the registry itself (for key in registry ...) cannot miss; a key built from the caller's
+        # arguments can
+        loop_vars = {t.id for sc in scopes for n_ in ast.walk(sc) if isinstance(n_, (ast.For, ast.comprehension))
+                     for t in ast.walk(n_.target) if isinstance(t, ast.Name)}
+        subs = [n for n in subs if isinstance(n.slice, ast.Tuple)
+                or (isinstance(n.slice, ast.Name) and n.slice.id not in loop_vars)]
         ctx.need(subs, fi.qualname, 'no registry lookup found')
         good = True
         for s in subs:
@@ -606,8 +671,16 @@ def r5(ctx):
     else:
         ctx.bad(nf.qualname, 'no-raise', '_no_format_error does not end in raise IORegistryError',
                 nf.loc())
-    txt = norm(idf.node)
-    if 'if format is None:\n        cls._no_format_error' in txt:
+    icfg = CFG(idf.node, exceptions=False)
+    rets = [(i, st) for i, st in icfg.stmt.items() if icfg.kind[i] == 'stmt' and isinstance(st, ast.Return)
+            and isinstance(st.value, ast.Name)]
+    good = bool(rets)
+    for i, st in rets:
+        x = st.value.id
+        guards = [j for j, s2 in icfg.stmt.items() if icfg.kind[j] == 'test' and norm(s2.test).replace(' ', '') == f'{x}isNone'
+                  and any('_no_format_error' in norm(b) for b in s2.body)]
+        good = good and bool(guards) and icfg.must_pass([i], guards)
+    if good:
         ctx.ok(idf.qualname, 'unidentified format raises')
     else:
         ctx.bad(idf.qualname, 'no-raise', 'identify_format may return None silently', idf.loc())
